@@ -1,1 +1,55 @@
-From TV Require Import Base.
+From TV Require Import Base Model.Wiring Model.Sim Model.FailStop.
+
+Section P.
+Variable cfg : config.
+
+(* c is a component somewhere below level lv (within the given nesting depth) *)
+Inductive Below : nat -> positive -> comp -> Prop :=
+| Below_here d lv c k : In (c, k) (l_order (level_of cfg lv)) -> Below (S d) lv c
+| Below_inner d lv s lv' c :
+    In (s, KSys lv') (l_order (level_of cfg lv)) -> Below d lv' c -> Below (S d) lv c.
+
+Lemma stop_level_spec fuel : forall lv c, In c (stop_level cfg fuel lv) <-> Below fuel lv c.
+Proof.
+  induction fuel as [|f IH]; intros lv c; simpl.
+  - split; [intros [] | intros H; inversion H].
+  - rewrite in_flat_map. split.
+    + intros [[s k] [Hin Hc]]. destruct k as [|lv']; simpl in Hc.
+      * destruct Hc as [<-|[]]. eapply Below_here. exact Hin.
+      * destruct Hc as [<-|Hc]; [eapply Below_here; exact Hin|].
+        eapply Below_inner; [exact Hin | apply IH; exact Hc].
+    + intros H. inversion H as [d lv0 c0 k Hin | d lv0 s lv' c0 Hin Hb]; subst.
+      * exists (c, k). split; [exact Hin|]. destruct k; simpl; auto.
+      * exists (s, KSys lv'). split; [exact Hin|]. simpl. right. apply IH. exact Hb.
+Qed.
+
+(* every component of the simulation is told to stop, wherever the failure happened: the
+   master always handles the exception, and stopping a system stops everything below it *)
+Lemma all_stopped fuel lvc path c :
+  In 1%positive (handling_levels lvc path) ->
+  In c (all_components cfg fuel) -> In c (stopped cfg fuel lvc path).
+Proof.
+  intros H1 Hc. unfold stopped. apply in_flat_map. exists 1%positive. split; [exact H1 | exact Hc].
+Qed.
+
+Lemma stopped_only_components fuel lvc path c :
+  (forall lv, In lv (handling_levels lvc path) -> forall x, Below fuel lv x -> Below fuel 1%positive x) ->
+  In c (stopped cfg fuel lvc path) -> In c (all_components cfg fuel).
+Proof.
+  intros Hsub Hc. unfold stopped in Hc. apply in_flat_map in Hc. destruct Hc as [lv [Hlv Hx]].
+  apply stop_level_spec. apply (Hsub lv Hlv). apply stop_level_spec. exact Hx.
+Qed.
+End P.
+
+(* what the pinned tree did: a system component told to stop only cancelled its own tasks, so a
+   broadcast reached one level only *)
+Definition stop_level_pinned (cfg : config) (lv : positive) : list comp :=
+  map fst (l_order (level_of cfg lv)).
+
+Lemma pinned_refuted : exists cfg c,
+  In c (all_components cfg 5) /\ ~ In c (flat_map (stop_level_pinned cfg) (handling_levels 1%positive [])).
+Proof.
+  exists [(1%positive, {| l_order := [(3%positive, KDev); (4%positive, KSys 2%positive)]; l_conns := [] |});
+          (2%positive, {| l_order := [(5%positive, KDev)]; l_conns := [] |})], 5%positive.
+  vm_compute. split; [auto 10|]. intros [H|[H|[]]]; discriminate.
+Qed.
